@@ -378,6 +378,95 @@ def run(ck):
             i = rng.randrange(len(m))
             yield "flip-random-byte", m[:i] + bytes([m[i] ^ (1 << rng.randrange(8))]) + m[i + 1:]
 
+        def judge_positional(op, v, data, start, numstrings, note):
+            """split_netstring without required_trailer, as dirnode._unpack_contents calls it: the result is
+            (elements, position).  The position is part of what is decoded ("points to the first byte which was not
+            consumed"): it can never lie beyond the end of the input."""
+            ck.mon("mutation-oracle")
+            ck.mon("netstring-position-oracle")
+            ck.hit("mutation:netstring:%s" % op)
+            try:
+                got, pos = ns.split_netstring(data, numstrings, position=start)
+            except Exception as e:  # noqa
+                ck.hit("rejects:netstring")
+                if isinstance(e, AssertionError):
+                    ck.observe("rejection-by-assert:netstring")
+                return
+            wit = {"operator": op, "mode": note, "data": data, "position": start, "numstrings": numstrings,
+                   "returned_elements": repr(got)[:300], "returned_position": pos, "len_data": len(data)}
+            if pos > len(data):
+                ck.violation("netstring-position-past-end-of-data",
+                             "split_netstring accepted a buffer whose last netstring has no terminating ',' and returned "
+                             "position %d for %d bytes of input: it claims to have consumed a byte that does not exist "
+                             "(statement: 'Malformed encodings are rejected rather than silently read as a different "
+                             "value'; docstring: 'The new position index points to the first byte which was not consumed')"
+                             % (pos, len(data)), wit)
+            elif got == v[:len(got)] and len(got) == min(numstrings, len(v)):
+                ck.skip("lenient-accept:netstring:%s" % op)
+            elif enc_list(got) == data[start:pos]:
+                ck.hit("legit-other-value:netstring")
+            else:
+                ck.violation("netstring-misread:" + op, "netstring decoder accepted a malformed encoding and returned a "
+                             "different value instead of rejecting it (statement: 'Malformed encodings are rejected rather "
+                             "than silently read as a different value')", wit)
+
+        def final_terminator_cases(v, m, k, exhaustive):
+            """truncation by exactly one byte / missing or wrong terminator of the LAST netstring, in every calling mode."""
+            variants = [("final-comma-dropped", m[:-1]), ("final-comma-nul", m[:-1] + b"\x00"),
+                        ("final-comma-semicolon", m[:-1] + b";"), ("final-comma-colon", m[:-1] + b":"),
+                        ("final-comma-space", m[:-1] + b" "), ("final-comma-newline", m[:-1] + b"\n"),
+                        ("final-two-bytes-dropped", m[:-2])]
+            if exhaustive:
+                variants += [("final-comma-replaced-any-byte", m[:-1] + bytes([b])) for b in range(256) if b != 0x2c]
+            pre = rb(rng.randint(1, 4))
+            for op, mm in variants:
+                # a) as many strings as there are, no trailer (dirnode's inner call: split_netstring(entry, 4))
+                judge_positional(op, v, mm, 0, k, "numstrings=k")
+                # b) the same behind a position offset
+                judge_positional(op, v, pre + mm, len(pre), k, "numstrings=k,position")
+                # c) more strings requested than present
+                judge_positional(op, v, mm, 0, k + 1, "numstrings=k+1")
+                # d) required_trailer=b"" (the existing oracle)
+                judge("netstring", op, v, mm, lambda x: ns.split_netstring(x, k, required_trailer=b"")[0], enc_list)
+                # e) dirnode layout: the outer list holds one netstring per entry, each entry is k inner netstrings.
+                #    outer intact / inner damaged, and outer damaged / inner intact; parsed the way
+                #    dirnode._unpack_contents does (one string at a time, no trailer)
+                for outer, which in ((ns.netstring(b"first") + ns.netstring(mm), "inner"),
+                                     ((ns.netstring(b"first") + ns.netstring(m))[:-1] if op == "final-comma-dropped"
+                                      else (ns.netstring(b"first") + ns.netstring(m))[:-1] + mm[-1:], "outer")):
+                    ck.mon("netstring-position-oracle")
+                    try:
+                        pos = 0
+                        entries = []
+                        while pos < len(outer):
+                            (entry,), pos = ns.split_netstring(outer, 1, pos)
+                            entries.append(entry)
+                            if pos > len(outer):
+                                raise OverflowError(pos)
+                        inner, sub = ns.split_netstring(entries[1], k)
+                        if sub > len(entries[1]):
+                            raise OverflowError(sub)
+                    except OverflowError as e:
+                        ck.violation("netstring-position-past-end-of-data",
+                                     "parsed the way dirnode._unpack_contents does, a directory-shaped blob whose last "
+                                     "netstring lost its ',' is accepted and split_netstring returns a position (%s) beyond "
+                                     "the end of the input (statement: 'Malformed encodings are rejected rather than "
+                                     "silently read as a different value')" % e,
+                                     {"operator": op, "damaged": which, "blob": outer})
+                    except Exception:  # noqa
+                        ck.hit("rejects:netstring")
+                    else:
+                        if inner == v and entries[0] == b"first":
+                            ck.skip("lenient-accept:netstring-nested:%s" % op)
+                        elif enc_list(inner) == entries[1][:sub] and enc_list(entries) == outer[:pos]:
+                            ck.hit("legit-other-value:netstring")
+                        else:
+                            ck.violation("netstring-misread:nested-" + op, "a damaged directory-shaped blob was split into "
+                                         "other strings than it holds (statement: 'Malformed encodings are rejected rather "
+                                         "than silently read as a different value')",
+                                         {"operator": op, "damaged": which, "blob": outer, "inner": repr(inner)[:300]})
+                ck.case("netstring-final-terminator", key=(tuple(v), op, mm), nontrivial=True)
+
         n_exhaustive = 6 if quick else 40          # per shard
         done_exhaustive = [0]
         n_cases = 500 if quick else 30000
@@ -445,6 +534,7 @@ def run(ck):
                 judge("netstring", op, v, mm,
                       lambda x: ns.split_netstring(x, k, required_trailer=b"")[0], enc_list)
                 ck.case("netstring-mutant", key=(tuple(v), op, mm), nontrivial=True)
+            final_terminator_cases(v, m, k, exhaustive=done_exhaustive[0] < n_exhaustive)
             if done_exhaustive[0] < n_exhaustive:
                 done_exhaustive[0] += 1
                 encs = [ns.netstring(x) for x in v]
@@ -1019,7 +1109,7 @@ def run(ck):
         except Exception:  # noqa
             import traceback
             ck.inconclusive_because("harness exception in section %s: %s" % (name, traceback.format_exc()[-1200:]))
-    ck.require_monitor("roundtrip-oracle", "mutation-oracle", "enumeration-oracle", "range-oracle")
+    ck.require_monitor("roundtrip-oracle", "mutation-oracle", "enumeration-oracle", "range-oracle", "netstring-position-oracle")
     ck.require_reach("base32-roundtrip", "base62-roundtrip", "netstring-roundtrip", "ueb-roundtrip",
                      "lease-roundtrip:immutable-v1", "lease-roundtrip:immutable-v2",
                      "lease-roundtrip:mutable-v1", "lease-roundtrip:mutable-v2",
@@ -1051,3 +1141,7 @@ def run(ck):
 #     the mangled block is read as the SAME value, which the statement ("rejected rather than silently read as a
 #     different value") and DESIGN §5 C38 leave open.  The generator reaches it and records it:
 #     dont_care lenient-accept-same-value:ueb:length:after, observation tolerated-byte:ueb:length:after:0x0a
+# 11. seeded/C38-4 and twins in selftest/breaks_c38.py (terminator test `data[position:position+1] in b","` / bounds guard:
+#     a buffer whose LAST netstring lost its comma is accepted)                                     -> caught
+#     (netstring-position-past-end-of-data: split_netstring without required_trailer returns a position > len(data);
+#     also in the dirnode-shaped nested layout, damaged inner and damaged outer)
